@@ -54,12 +54,12 @@ func (n *VPLSNLRI) decodeFromBytes(data []byte, options ...*MarshallingOption) e
 	if len(data) < length+2 {
 		return NewMessageError(BGP_ERROR_UPDATE_MESSAGE_ERROR, BGP_ERROR_SUB_MALFORMED_ATTRIBUTE_LIST, nil, "Not all VPLS NLRI bytes available")
 	}
-	if length == 12 { // BGP-AD
-		// BGP-AD is not supported yet
-		return nil
-	}
-	if len(data) < 19 {
-		return NewMessageError(BGP_ERROR_UPDATE_MESSAGE_ERROR, BGP_ERROR_SUB_MALFORMED_ATTRIBUTE_LIST, nil, "Not all VPLS NLRI bytes available")
+	if length != 17 {
+		// Only the 17-octet VPLS-BGP NLRI is supported. BGP-AD (12 octets) is
+		// not supported yet and must not be returned as a half-initialised
+		// value (nil RD, wrong Len()), which cannot be framed, rendered or
+		// serialised by the callers.
+		return NewMessageError(BGP_ERROR_UPDATE_MESSAGE_ERROR, BGP_ERROR_SUB_MALFORMED_ATTRIBUTE_LIST, nil, fmt.Sprintf("unsupported VPLS NLRI length %d", length))
 	}
 	// VPLS-BGP
 	n.rd = GetRouteDistinguisher(data[2:10])
